@@ -210,6 +210,13 @@ func (b *Block) GetVerificationTickets() (vts []*VerificationTicket) {
 	return
 }
 
+// SetVerificationTickets replaces the verification tickets of the block.
+func (b *Block) SetVerificationTickets(vts []*VerificationTicket) {
+	b.ticketsMutex.Lock()
+	defer b.ticketsMutex.Unlock()
+	b.VerificationTickets = vts
+}
+
 // VerificationTicketsSize returns number verification tickets of the Block.
 func (b *Block) VerificationTicketsSize() int {
 	b.ticketsMutex.RLock()
